@@ -25,6 +25,7 @@ HistOf(h) == [runs |-> ToSet(h.runs), dup |-> h.dup, fin |-> ToSet(h.fin), cut |
 Bind(s, st) ==
     /\ scn' = s
     /\ d2w' = st.d2w /\ w2d' = st.w2d /\ rcbox' = st.rcbox /\ timers' = st.timers /\ dtimers' = st.dtimers
+    /\ d2d' = st.d2d /\ rc2d' = st.rc2d /\ rcst' = st.rcst /\ flt' = st.flt
     /\ drv' = [st.drv EXCEPT !.doneW = ToSet(@)]
     /\ wk' = st.wk
     /\ cell' = [c \in Clients(s) |-> st.cell[c + 1]]
@@ -33,10 +34,11 @@ Bind(s, st) ==
 TInit == /\ tid = 0 /\ l = 0 /\ nev = 0
          /\ scn = [sched |-> <<>>, workerOf |-> <<>>, W |-> 0]
          /\ d2w = <<>> /\ w2d = <<>> /\ rcbox = <<>> /\ timers = <<>> /\ dtimers = <<>>
-         /\ drv = [completed |-> 0, doneW |-> {}, step |-> -1, cct |-> FALSE, raw |-> <<>>, store |-> <<>>, ppt |-> 0]
+         /\ d2d = <<>> /\ rc2d = <<>> /\ rcst = InitRc /\ flt = [kind |-> "none", armed |-> FALSE, fired |-> FALSE]
+         /\ drv = InitDrv
          /\ wk = <<>> /\ cell = <<>> /\ hist = InitHist /\ act = [name |-> "Init"]
 
-ActRec(e) == CASE e.ev = "ExecStep" -> [name |-> e.ev, c |-> e.arg]
+ActRec(e) == CASE e.ev \in {"ExecStep", "FReq", "FParam"} -> [name |-> e.ev, c |-> e.arg]
                [] e.ev = "DWakeup" -> [name |-> e.ev, i |-> e.arg]
                [] OTHER -> [name |-> e.ev, w |-> e.arg]
 
@@ -50,10 +52,33 @@ StepOf(e) == CASE e.ev = "WRecvBootstrap" -> WRecvBootstrap(e.arg)
                [] e.ev = "DRecvJoinPointReached" -> DRecvJoinPointReached(e.arg)
                [] e.ev = "DRecvUpdateSamples" -> DRecvUpdateSamples(e.arg)
                [] e.ev = "DWakeup" -> DWakeup(e.arg)
+               [] e.ev = "WRecvBenchmarkFailure" -> WRecvBenchmarkFailure(e.arg)
+               [] e.ev = "DRecvBenchmarkFailure" -> DRecvBenchmarkFailure(e.arg)
+               [] e.ev = "DRecvChildExited" -> DRecvChildExited(e.arg)
+               [] e.ev = "DRecvSelfFailure" -> DRecvSelfFailure
+               [] e.ev = "DRecvFromRc" -> DRecvFromRc
+               [] e.ev = "RcRecv" -> RcRecv
+               [] e.ev = "RcEngineStopped" -> RcEngineStopped
+               [] e.ev = "FReq" -> FReq(e.arg)
+               [] e.ev = "FParam" -> FParam(e.arg)
+               [] e.ev = "FArm" -> FArm(flt.kind)
+               [] e.ev = "FWorkerDies" -> FWorkerDies(e.arg)
+               [] e.ev = "FCancel" -> FCancel
+               [] e.ev = "Skip" -> UNCHANGED view       \* a message the model does not describe (mechanic): changes nothing modelled
                [] OTHER -> FALSE
 
 L1Clauses == {"Barrier", "AtMostOnce", "ExactlyOnceAtEnd", "CompleteOnce", "CompletedByNamed", "NoCrossElementCut",
-              "NoStall", "NoHang", "SampleConservation", "AllSamplesAtRaceControl", "OnlyFullQueueDrops", "FinalRecords"}
+              "NoStall", "NoHang", "SampleConservation", "AllSamplesAtRaceControl", "OnlyFullQueueDrops", "FinalRecords",
+              "FaultNeverSuccess", "NoResultsOnFailure", "CancelNoResults", "FaultReported"}
+
+(* a failure must have reached race control when the recorded race can make no further progress, and within        *)
+(* ReportBoundMs of virtual time (a few wake-up intervals)                                                         *)
+ReportBoundMs == 16000
+FaultReportedAtEnd(e) ==
+    (e.last /\ "fault" \in DOMAIN e /\ e.fault.fired /\ flt'.kind # "cancel") => rcst'.error
+ReportedInBound(e) ==
+    (e.last /\ "fault" \in DOMAIN e /\ e.fault.fired /\ e.fault.tReport >= 0 /\ flt'.kind # "cancel") =>
+        e.fault.tReport - e.fault.tFault <= ReportBoundMs
 
 (* the record table the harness reads from race control's metrics store at the end of the race: one row per executed *)
 (* request [lat, svc, proc, metaOk]; with default settings exactly one record of each kind with the right meta data  *)
@@ -76,6 +101,10 @@ Holds(c, e) ==
       [] c = "AllSamplesAtRaceControl" -> AllSamplesAtRaceControl'
       [] c = "OnlyFullQueueDrops" -> OnlyFullQueueDrops'
       [] c = "FinalRecords" -> FinalRecordsOk(e)
+      [] c = "FaultNeverSuccess" -> FaultNeverSuccess'
+      [] c = "NoResultsOnFailure" -> NoResultsOnFailure'
+      [] c = "CancelNoResults" -> ((rcst.cancelled /\ ~rcst.stored) => ~rcst'.stored)
+      [] c = "FaultReported" -> FaultReportedAtEnd(e)
 
 StartTrace ==
     /\ tid < Len(Traces) /\ (IF tid = 0 THEN TRUE ELSE l > Len(Traces[tid].events))
@@ -84,10 +113,10 @@ StartTrace ==
          /\ act' = [name |-> "Init"]
          /\ LET initOk == /\ d2w' = [w \in Workers(tr.scn) |-> <<Msg("Bootstrap"), Msg("StartWorker")>>]
                           /\ w2d' = [w \in Workers(tr.scn) |-> <<>>] /\ rcbox' = <<>>
+                          /\ d2d' = <<>> /\ rc2d' = <<>> /\ rcst' = InitRc /\ ~flt'.armed /\ ~flt'.fired
                           /\ timers' = [w \in Workers(tr.scn) |-> 0] /\ dtimers' = <<"tick">>
-                          /\ drv' = [completed |-> 0, doneW |-> {}, step |-> -1, cct |-> FALSE, raw |-> <<>>, store |-> <<>>, ppt |-> 0]
-                          /\ wk' = [w \in Workers(tr.scn) |-> [cur |-> 0, nxt |-> 0, sd |-> FALSE, fut |-> "none", complete |-> FALSE,
-                                                               cancel |-> FALSE, sampq |-> <<>>]]
+                          /\ drv' = InitDrv
+                          /\ wk' = [w \in Workers(tr.scn) |-> InitWk]
                           /\ cell' = [c \in Clients(tr.scn) |-> Idle]
                           /\ hist' = InitHist
                           /\ Len(tr.scn.workerOf) = M(tr.scn)
@@ -102,7 +131,7 @@ Consume ==
          /\ act' = ActRec(e)
          /\ LET l1 == {c \in L1Clauses : ~Holds(c, e)}
                 l2 == e.ev = "Hang" \/ StepOf(e)
-            IN /\ IF l1 = {} THEN TRUE ELSE PrintT(<<"V", Traces[tid].id, l, "L1", l1>>)
+            IN /\ \A c \in l1 : PrintT(<<"V", Traces[tid].id, l, "L1", {c}>>)
                /\ IF l2 THEN TRUE ELSE PrintT(<<"V", Traces[tid].id, l, "L2", {e.ev}>>)
     /\ l' = l + 1 /\ nev' = nev + 1 /\ tid' = tid
 
